@@ -29,3 +29,45 @@ func cmdDyn(args []string) {
 		}
 	}
 }
+
+// govc writers <key> [origin-substring]: who writes heap key, and whether the functions matching origin reach them.
+func cmdWriters(args []string) {
+	p, err := loadProg("/repo", "/verif/contracts")
+	if err != nil {
+		fmt.Println(err)
+		os.Exit(2)
+	}
+	so := newSorts(false)
+	ws := p.writersOf(so, args[0])
+	for _, w := range ws {
+		fmt.Println("WRITER", funcKey(w))
+	}
+	if len(args) > 1 {
+		for _, f := range p.allFuncs() {
+			if !strings.Contains(funcKey(f), args[1]) {
+				continue
+			}
+			fmt.Println("ORIGIN", funcKey(f), "dyn:", p.bodyHasDyn(so, f))
+			for _, w := range ws {
+				if p.reaches(f, w) {
+					fmt.Println("   reaches", funcKey(w))
+				}
+			}
+		}
+	}
+}
+
+func cmdWriterKeys() {
+	p, _ := loadProg("/repo", "/verif/contracts")
+	so := newSorts(false)
+	p.writersOf(so, "")
+	for k, ws := range p.writers {
+		if strings.HasPrefix(k, "M:") {
+			var ns []string
+			for _, w := range ws {
+				ns = append(ns, w.Name())
+			}
+			fmt.Println(k, ns)
+		}
+	}
+}
